@@ -55,7 +55,10 @@ manifest = {
         "path": "/verif/lean, /verif/harness",
         "serves_properties": [c["property_id"] for c in checks],
         "kind_free_text": "Lean 4 (4.33.0) theorems over executable models of the lena code; Python harness runs the real code and the "
-                          "model driver on the same cases (line protocol) and evaluates the property directly on the real code",
+                          "model driver on the same cases (line protocol) and evaluates the property directly on the real code; "
+                          "bridge theorems (lean/LenaModel/Bridge, harness/bridges.json) relate the independent transcriptions of the "
+                          "same Python code in different property models; C20's model data are regenerated from /repo by a translator "
+                          "(harness/extract_facts.py) on every run",
     }],
     "checks": checks,
     "not_applicable": not_app,
